@@ -1,7 +1,7 @@
 /-
   C08 with an anchoring window: the acceptance theorems of Props/C08.lean without the read-back
-  hypothesis, for every window whose bounds are below 2^53 in magnitude (the builders refuse
-  bounds beyond 2^53, D41; the bound ±2^53 itself is the one value left to the stream).
+  hypothesis, for every window the builders accept: bounds of magnitude up to 2^53 (they refuse
+  anything beyond, D41), so the theorems apply to the builders themselves (`newUpdateRequest_accepted`).
   The integer members `anchorFrom` / `anchorUntil` are written by RFC 8785 as the digits of the
   integer (Lemmas/NumInt*.lean) and read back as the very literal (Lemmas/RoundTripNum.lean,
   Lemmas/FramingNum.lean).
@@ -21,7 +21,7 @@ open Sidetree.Framing in
 theorem update_built_accepted_windowed (ok : HashOK H) (i : UpdateInfo) (req : Json) (k : Jwk) (s : Signer)
     (hdrs : List (String × Json))
     (hb : newUpdateRequestCore H i = some req) (hk : i.updateKey = some k) (hsg : i.signer = some s)
-    (hw : i.anchorFrom.natAbs < 2 ^ 53 ∧ i.anchorUntil.natAbs < 2 ^ 53)
+    (hw : i.anchorFrom.natAbs ≤ 2 ^ 53 ∧ i.anchorUntil.natAbs ≤ 2 ^ 53)
     (halg : cfg.multihashAlgorithms = [i.code])
     (hdelta : validateDelta cfg orc (some (mkDelta i.updateCommitment i.patches)) = true)
     (hrv : multihashOK cfg i.revealValue = true)
@@ -33,8 +33,8 @@ theorem update_built_accepted_windowed (ok : HashOK H) (i : UpdateInfo) (req : J
     ∃ p, parseUpdate H cfg orc req false = some p ∧ p.type = .update ∧ p.uniqueSuffix = i.didSuffix ∧
       p.delta = some (mkDelta i.updateCommitment i.patches) ∧ p.revealValue = i.revealValue := by
   obtain ⟨hf, hu⟩ := hw
-  have sf : IntStable i.anchorFrom := Props.C05.int_stable _ hf
-  have su : IntStable i.anchorUntil := Props.C05.int_stable _ hu
+  have sf : IntStable i.anchorFrom := Props.C05.int_stable_le _ hf
+  have su : IntStable i.anchorUntil := Props.C05.int_stable_le _ hu
   have rf : Int64Range i.anchorFrom := by unfold Int64Range; omega
   have ru : Int64Range i.anchorUntil := by unfold Int64Range; omega
   apply update_built_accepted H cfg orc ok i req k hb hk halg hdelta hrv hreveal htime
@@ -53,7 +53,7 @@ open Sidetree.Framing in
 theorem deactivate_built_accepted_windowed (ok : HashOK H) (i : DeactivateInfo) (req : Json) (k : Jwk) (s : Signer)
     (hdrs : List (String × Json))
     (hb : newDeactivateRequestCore i = some req) (hk : i.recoveryKey = some k) (hsg : i.signer = some s)
-    (hw : i.anchorFrom.natAbs < 2 ^ 53 ∧ i.anchorUntil.natAbs < 2 ^ 53)
+    (hw : i.anchorFrom.natAbs ≤ 2 ^ 53 ∧ i.anchorUntil.natAbs ≤ 2 ^ 53)
     (hrv : multihashOK cfg i.revealValue = true)
     (hreveal : ∃ c, Hashing.revealValue H k.toJson c = some i.revealValue)
     (htime : orc.anchorTimeOK i.anchorFrom (anchorUntil cfg i.anchorFrom i.anchorUntil) = true)
@@ -61,8 +61,8 @@ theorem deactivate_built_accepted_windowed (ok : HashOK H) (i : DeactivateInfo) 
     ∃ p, parseDeactivate H cfg orc req false = some p ∧ p.type = .deactivate ∧ p.uniqueSuffix = i.didSuffix ∧
       p.revealValue = i.revealValue := by
   obtain ⟨hf, hu⟩ := hw
-  have sf : IntStable i.anchorFrom := Props.C05.int_stable _ hf
-  have su : IntStable i.anchorUntil := Props.C05.int_stable _ hu
+  have sf : IntStable i.anchorFrom := Props.C05.int_stable_le _ hf
+  have su : IntStable i.anchorUntil := Props.C05.int_stable_le _ hu
   have rf : Int64Range i.anchorFrom := by unfold Int64Range; omega
   have ru : Int64Range i.anchorUntil := by unfold Int64Range; omega
   apply deactivate_built_accepted H cfg orc ok i req k hb hk hrv hreveal htime
@@ -77,7 +77,7 @@ open Sidetree.Framing in
 theorem recover_built_accepted_windowed (ok : HashOK H) (i : RecoverInfo) (req : Json) (k : Jwk) (s : Signer)
     (hdrs : List (String × Json)) (patches : List Json) (ao : Option String)
     (hb : newRecoverRequestCore H i = some req) (hk : i.recoveryKey = some k) (hsg : i.signer = some s)
-    (hw : i.anchorFrom.natAbs < 2 ^ 53 ∧ i.anchorUntil.natAbs < 2 ^ 53) (hao : i.anchorOrigin = ao.map Json.str)
+    (hw : i.anchorFrom.natAbs ≤ 2 ^ 53 ∧ i.anchorUntil.natAbs ≤ 2 ^ 53) (hao : i.anchorOrigin = ao.map Json.str)
     (hp : patchesOf i.opaqueDoc i.patches = some patches)
     (halg : cfg.multihashAlgorithms = [i.code])
     (hdelta : validateDelta cfg orc (some (mkDelta i.updateCommitment patches)) = true)
@@ -93,8 +93,8 @@ theorem recover_built_accepted_windowed (ok : HashOK H) (i : RecoverInfo) (req :
     ∃ p, parseRecover H cfg orc req false = some p ∧ p.type = .recover ∧ p.uniqueSuffix = i.didSuffix ∧
       p.delta = some (mkDelta i.updateCommitment patches) ∧ p.revealValue = i.revealValue ∧ p.anchorOrigin = i.anchorOrigin := by
   obtain ⟨hf, hu⟩ := hw
-  have sf : IntStable i.anchorFrom := Props.C05.int_stable _ hf
-  have su : IntStable i.anchorUntil := Props.C05.int_stable _ hu
+  have sf : IntStable i.anchorFrom := Props.C05.int_stable_le _ hf
+  have su : IntStable i.anchorUntil := Props.C05.int_stable_le _ hu
   have rf : Int64Range i.anchorFrom := by unfold Int64Range; omega
   have ru : Int64Range i.anchorUntil := by unfold Int64Range; omega
   -- the builder's own key-reuse check gives the parser's
@@ -164,10 +164,67 @@ theorem recover_built_accepted_windowed (ok : HashOK H) (i : RecoverInfo) (req :
 
 /-- the builders themselves: whatever `NewUpdateRequest` returns for a window strictly inside
     ±2^53 falls under `update_built_accepted_windowed` (the guard `windowExact` admits it) -/
-theorem windowExact_of_small (af au : Int) (h : af.natAbs < 2 ^ 53 ∧ au.natAbs < 2 ^ 53) : windowExact af au = true := by
+theorem windowExact_iff_natAbs (af au : Int) :
+    windowExact af au = true ↔ (af.natAbs ≤ 2 ^ 53 ∧ au.natAbs ≤ 2 ^ 53) := by
   rw [windowExact_iff]; omega
 
+/-- **`NewUpdateRequest` itself**: whatever the builder returns — it has then passed its own window
+    guard — is accepted, with no condition on the window left -/
+theorem newUpdateRequest_accepted (ok : HashOK H) (i : UpdateInfo) (req : Json) (k : Jwk) (s : Signer)
+    (hdrs : List (String × Json))
+    (hb : newUpdateRequest H i = some req) (hk : i.updateKey = some k) (hsg : i.signer = some s)
+    (halg : cfg.multihashAlgorithms = [i.code])
+    (hdelta : validateDelta cfg orc (some (mkDelta i.updateCommitment i.patches)) = true)
+    (hrv : multihashOK cfg i.revealValue = true)
+    (hreveal : ∃ c, Hashing.revealValue H k.toJson c = some i.revealValue)
+    (htime : orc.anchorTimeOK i.anchorFrom (anchorUntil cfg i.anchorFrom i.anchorUntil) = true)
+    (fit : Framing.SignerFits cfg s hdrs) (hkey : signingKeyOK cfg (some k) = true)
+    (hlen : ∀ dh, Hashing.calculateModelMultihash H (mkDelta i.updateCommitment i.patches).toJson i.code = some dh →
+        utf8Len dh ≤ cfg.maxOperationHashLength) :
+    ∃ p, parseUpdate H cfg orc req false = some p ∧ p.type = .update ∧ p.uniqueSuffix = i.didSuffix ∧
+      p.delta = some (mkDelta i.updateCommitment i.patches) ∧ p.revealValue = i.revealValue := by
+  obtain ⟨hwe, hcore⟩ := (newUpdateRequest_some H i req).mp hb
+  exact update_built_accepted_windowed H cfg orc ok i req k s hdrs hcore hk hsg
+    ((windowExact_iff_natAbs _ _).mp hwe) halg hdelta hrv hreveal htime fit hkey hlen
+
+/-- **`NewDeactivateRequest` itself** -/
+theorem newDeactivateRequest_accepted (ok : HashOK H) (i : DeactivateInfo) (req : Json) (k : Jwk) (s : Signer)
+    (hdrs : List (String × Json))
+    (hb : newDeactivateRequest i = some req) (hk : i.recoveryKey = some k) (hsg : i.signer = some s)
+    (hrv : multihashOK cfg i.revealValue = true)
+    (hreveal : ∃ c, Hashing.revealValue H k.toJson c = some i.revealValue)
+    (htime : orc.anchorTimeOK i.anchorFrom (anchorUntil cfg i.anchorFrom i.anchorUntil) = true)
+    (fit : Framing.SignerFits cfg s hdrs) (hkey : signingKeyOK cfg (some k) = true) :
+    ∃ p, parseDeactivate H cfg orc req false = some p ∧ p.type = .deactivate ∧ p.uniqueSuffix = i.didSuffix ∧
+      p.revealValue = i.revealValue := by
+  obtain ⟨hwe, hcore⟩ := (newDeactivateRequest_some i req).mp hb
+  exact deactivate_built_accepted_windowed H cfg orc ok i req k s hdrs hcore hk hsg
+    ((windowExact_iff_natAbs _ _).mp hwe) hrv hreveal htime fit hkey
+
+/-- **`NewRecoverRequest` itself** (anchor origin absent or a string; the commitments must differ — D11) -/
+theorem newRecoverRequest_accepted (ok : HashOK H) (i : RecoverInfo) (req : Json) (k : Jwk) (s : Signer)
+    (hdrs : List (String × Json)) (patches : List Json) (ao : Option String)
+    (hb : newRecoverRequest H i = some req) (hk : i.recoveryKey = some k) (hsg : i.signer = some s)
+    (hao : i.anchorOrigin = ao.map Json.str)
+    (hp : patchesOf i.opaqueDoc i.patches = some patches)
+    (halg : cfg.multihashAlgorithms = [i.code])
+    (hdelta : validateDelta cfg orc (some (mkDelta i.updateCommitment patches)) = true)
+    (hne : i.updateCommitment ≠ i.recoveryCommitment)
+    (hrv : multihashOK cfg i.revealValue = true)
+    (hreveal : ∃ c, Hashing.revealValue H k.toJson c = some i.revealValue)
+    (horigin : orc.anchorOriginOK i.anchorOrigin = true)
+    (htime : orc.anchorTimeOK i.anchorFrom (anchorUntil cfg i.anchorFrom i.anchorUntil) = true)
+    (fit : Framing.SignerFits cfg s hdrs) (hkey : signingKeyOK cfg (some k) = true)
+    (hrc : multihashOK cfg i.recoveryCommitment = true)
+    (hlen : ∀ dh, Hashing.calculateModelMultihash H (mkDelta i.updateCommitment patches).toJson i.code = some dh →
+        utf8Len dh ≤ cfg.maxOperationHashLength) :
+    ∃ p, parseRecover H cfg orc req false = some p ∧ p.type = .recover ∧ p.uniqueSuffix = i.didSuffix ∧
+      p.delta = some (mkDelta i.updateCommitment patches) ∧ p.revealValue = i.revealValue ∧ p.anchorOrigin = i.anchorOrigin := by
+  obtain ⟨hwe, hcore⟩ := (newRecoverRequest_some H i req).mp hb
+  exact recover_built_accepted_windowed H cfg orc ok i req k s hdrs patches ao hcore hk hsg
+    ((windowExact_iff_natAbs _ _).mp hwe) hao hp halg hdelta hne hrv hreveal horigin htime fit hkey hrc hlen
+
 /-- the window hypothesis is met by real bounds (seconds since the epoch, block heights) -/
-example : (1700000000 : Int).natAbs < 2 ^ 53 ∧ (1700003600 : Int).natAbs < 2 ^ 53 := by decide
+example : (1700000000 : Int).natAbs ≤ 2 ^ 53 ∧ (1700003600 : Int).natAbs ≤ 2 ^ 53 := by decide
 
 end Sidetree.Props.C08
